@@ -427,7 +427,20 @@ def _subst(text, binds, deep=False):
     return re.sub(r"\$([A-Za-z_][A-Za-z0-9_]*)", lambda m: binds.get(m.group(1), m.group(0)), text)
 
 
+import threading
+_EXPAND_LOCK = threading.RLock()
+
+
 def expand(template_path, repo, vacuity=False):
+    """thread-safe entry: template expansion keeps per-call scratch state on module-level function attributes
+    (_find_pattern.last_bindings / last_ends), and the driver expands units from several threads — two concurrent
+    expansions could read each other's bindings (seen once as a spurious rustc error in an extracted file).  Expansion
+    is cheap compared with verification, so it is simply serialised."""
+    with _EXPAND_LOCK:
+        return _expand(template_path, repo, vacuity)
+
+
+def _expand(template_path, repo, vacuity=False):
     """Expand a unit template.  Returns Unit."""
     tlines, tmap = _preprocess(template_path, 0)
     unit = Unit(os.path.basename(template_path).split(".")[0].upper())
